@@ -744,6 +744,7 @@ class MasterSim(object):
                 'prio': prio,
             }
             self.app_order.append(name)
+            self.last_app = name
         return ids
 
     def op_rm(self, idx):
@@ -779,6 +780,18 @@ class MasterSim(object):
         self.tick()
         masterapi.update_app_priorities(self.admin, {name: prio})
         self.decl_apps[name]['prio'] = prio
+        self.last_app = name
+
+    def op_rmlast(self):
+        """Delete the instance most recently touched by another request
+        (two requests about one instance racing through different watches).
+        """
+        name = getattr(self, 'last_app', None)
+        if name is None or name not in self.app_order:
+            return
+        self.tick()
+        masterapi.delete_apps(self.admin, [name], deleted_by='pbt')
+        self._forget_app(name)
 
     def op_allocs(self, allocs):
         self.tick()
